@@ -273,6 +273,7 @@ static void run(const unsigned int ipg_const)
 	unsigned long long N = 0, ipg = 0;
 
 	/* inodes per group is a constant of the harness */
+	ASSUME(ipg_const >= 8 && ipg_const <= 524288 && (ipg_const & 7) == 0);
 	ipg = ipg_const;
 	N = (unsigned long long)IN.groups * ipg_const;
 	ASSUME(N <= 0xfffffff8ULL && F >= 1 && F <= N && IN.dir <= N);
